@@ -47,7 +47,16 @@ pub fn make_title_case(toks: &[Token], source: &[char], dict: &impl Dictionary) 
                     output[word.span.start - start_index..word.span.end - start_index]
                         .iter_mut()
                         .enumerate()
-                        .for_each(|(idx, c)| *c = correct_caps[idx]);
+                        .for_each(|(idx, c)| {
+                            // Copy the dictionary's capitalization (and its apostrophe), never a
+                            // different character: `K` (KELVIN SIGN) shares its lowercase with `K`.
+                            let canonical = correct_caps[idx];
+                            if is_case_variant(*c, canonical)
+                                || (canonical == '\'' && matches!(*c, '’' | '‘' | '＇'))
+                            {
+                                *c = canonical;
+                            }
+                        });
                 }
             }
         };
@@ -68,6 +77,11 @@ pub fn make_title_case(toks: &[Token], source: &[char], dict: &impl Dictionary) 
     }
 
     output
+}
+
+/// Whether two characters are the same letter in (possibly) different case.
+fn is_case_variant(a: char, b: char) -> bool {
+    a.to_lowercase().eq(b.to_lowercase()) && a.to_uppercase().eq(b.to_uppercase())
 }
 
 /// Determines whether a token should be capitalized.
